@@ -41,7 +41,7 @@ func init() {
 				return 150_000
 			}, Run: c15Gradient,
 				Min: map[string]int64{"gradients": 20000, "probes": 1000000, "exact_integer_offsets": 2000, "exact_odd_integer_reflect": 100, "exact_stop_offsets": 1000, "negative_offsets": 50000, "offsets_above_1": 50000, "offsets_inside_0_1": 200000,
-					"spread_none": 10000, "spread_pad": 10000, "spread_reflect": 10000, "spread_repeat": 10000, "radial": 100000, "linear": 100000, "transparent_outside": 1000, "dyadic_gradients": 5000, "far_offset_gradients": 3000, "gradients_after_another_gradient": 20000, "same_gradient_after_retargeting": 20000, "gradient_after_an_unpainted_path": 20000}},
+					"spread_none": 10000, "spread_pad": 10000, "spread_reflect": 10000, "spread_repeat": 10000, "radial": 100000, "linear": 100000, "transparent_outside": 1000, "dyadic_gradients": 5000, "far_offset_gradients": 3000, "offsets_beyond_2^63": 5000, "gradients_after_another_gradient": 20000, "same_gradient_after_retargeting": 20000, "gradient_after_an_unpainted_path": 20000}},
 			{Name: "pixels", N: func(t string) uint64 {
 				if t == "thorough" {
 					return 1_000_000
@@ -275,7 +275,9 @@ func c15Gen(r *run.Rng, small bool) *c15Grad {
 	if r.Chance(1, 6) {
 		// offsets far outside [0,1]: hundreds to millions of periods away
 		q.far = true
-		f := float32(math.Ldexp(1, r.Range(6, 20)))
+		// (for exact matrices also beyond 2^53 and beyond 2^63, where every offset
+		// is an even whole number of periods)
+		f := float32(math.Ldexp(1, r.Pick(r.Range(6, 20), r.Range(6, 20), r.Range(21, 62), r.Range(63, 100))))
 		if !q.dyadic {
 			f = float32(r.LogUniform(1e2, 1e6))
 		}
@@ -559,6 +561,9 @@ func c15DrawAndJudge(c *run.Ctx, zp *render.Renderer, rz *rec.Raster, q *c15Grad
 			c.Count("linear", 1)
 		}
 		c.MaxF("largest_offset_magnitude", math.Min(math.Abs(o), 1e300))
+		if math.Abs(o) >= 1<<63 {
+			c.Count("offsets_beyond_2^63", 1)
+		}
 		switch {
 		case o < 0:
 			c.Count("negative_offsets", 1)
